@@ -15,6 +15,12 @@ flow along the operations the *code* accepted; every labelled node must read bac
 bytes, `contentSize == len`, `sha256 == hashlib.sha256`; an attempt to store the marker value
 on an IH5 driver must raise and leave the raw dump of every container file unchanged.
 
+How the source file is *presented* to `pack_file` is a further input dimension (PRESENTATIONS):
+regular file as Path or str, absolute / relative / long-target symbolic link, chain of two links,
+hard link, path with `..` components, path relative to the working directory, odd file name.
+Every presentation designates an existing regular file with the given bytes, so the oracle is the
+same for all of them; the model is given the byte content only (optional 4th element of "pack").
+
 On a plain `h5py.File` there is no deletion marker: there the one-byte file `\\x7f` may either
 be stored exactly or be refused loudly without a change; both satisfy the property.
 """
@@ -104,10 +110,107 @@ def large_histories(thorough: bool) -> List[List[Any]]:
     return H
 
 
+# ---------------------------------------------------------------------------- source presentations
+
+PRESENTATIONS = ["plain", "str", "symlink-abs", "symlink-rel", "symlink-long", "symlink-chain", "symlink-dir",
+                 "hardlink", "dotdot", "relcwd", "oddname"]
+ODD_NAME = "s r c #%41 \u00e9~(1)'&;$.tar.gz"
+
+
+def pres_of(op) -> str:
+    return op[3] if op[0] == "pack" and len(op) > 3 else "plain"
+
+
+def present(d, idx: int, bs: bytes, pres: str):
+    """Create an existing regular file holding `bs` below directory `d` and return the argument
+    that designates it to the embedding API in the way `pres` names.  Names are chosen such that
+    no link target string has the length of the content (a size taken from the link itself
+    must not pass by coincidence)."""
+    import os
+
+    def fresh_name(stem: str, avoid: int, prefix_len: int = 0) -> str:
+        n = f"{stem}{idx}.bin"
+        return n if prefix_len + len(n) != avoid else f"{stem}{idx}_.bin"
+    if pres == "oddname":
+        src = d / f"{idx}{ODD_NAME}"
+        src.write_bytes(bs)
+        return src
+    if pres in ("symlink-rel", "symlink-dir"):
+        sub = d / f"data{idx}"
+        sub.mkdir()
+        src = sub / fresh_name("src", len(bs), len(sub.name) + 1)
+    elif pres == "symlink-long":
+        sub = d / ("long-directory-name-" * 6 + str(idx))
+        sub.mkdir()
+        src = sub / fresh_name("src", len(bs), len(str(sub)) + 1)
+    elif pres == "symlink-abs":
+        src = d / fresh_name("src", len(bs), len(str(d)) + 1)
+    else:
+        src = d / f"src{idx}.bin"
+    src.write_bytes(bs)
+    if pres == "plain":
+        return src
+    if pres == "str":
+        return str(src)
+    if pres in ("symlink-abs", "symlink-long"):
+        link = d / f"lnk{idx}.bin"
+        os.symlink(str(src), link)
+        return link
+    if pres == "symlink-rel":
+        link = d / f"lnk{idx}.bin"
+        os.symlink(f"{src.parent.name}/{src.name}", link)           # relative to the link's directory
+        return link
+    if pres == "symlink-dir":                                        # the link is a directory on the way, not the last component
+        link = d / f"dir{idx}"
+        os.symlink(src.parent.name, link)
+        return link / src.name
+    if pres == "symlink-chain":
+        l1 = d / fresh_name("hop", len(bs))
+        os.symlink(src.name, l1)
+        l2 = d / f"lnk{idx}.bin"
+        os.symlink(str(l1) if len(str(l1)) != len(bs) else l1.name, l2)
+        return l2
+    if pres == "hardlink":
+        link = d / f"hard{idx}.bin"
+        os.link(src, link)
+        return link
+    if pres == "dotdot":
+        sub = d / f"sub{idx}"
+        sub.mkdir()
+        return sub / ".." / sub.name / ".." / src.name
+    if pres == "relcwd":
+        return os.path.relpath(src, os.getcwd())
+    raise RuntimeError(f"unknown presentation {pres}")
+
+
+def presentation_histories(prng, pool: List[bytes], thorough: bool) -> List[List[Any]]:
+    """Every presentation with several payloads (lengths around typical link-target lengths,
+    empty, NUL-rich, page-sized, random), each packed twice (base container and a patch) and
+    carried through copy / move / merge / reopen."""
+    rb = lambda n: bytes(prng.getrandbits(8) for _ in range(n))  # noqa: E731
+    H: List[List[Any]] = []
+    for pi, pres in enumerate(PRESENTATIONS):
+        fixed = [b"", b"x", b"ab\x00\x00", rb(prng.randint(5, 60)), rb(4096), rb(prng.randint(100, 3000))]
+        picks = fixed if thorough else [fixed[(pi + j) % len(fixed)] for j in (0, 3)]
+        picks = picks + [prng.choice(pool) for _ in range(4 if thorough else 1)]
+        for j, b in enumerate(picks):
+            if b == MARK:
+                b = MARK + b"p"
+            other = rb(prng.randint(1, 40))
+            H.append([["pack", "f", b, pres], ["bnd"], ["pack", "a/g", other, PRESENTATIONS[(pi + j + 1) % len(PRESENTATIONS)]],
+                      ["copy", "f", "b/h"], ["bnd"], ["move", "f", "c/x"], ["merge"], ["reopen"]])
+    return H
+
+
+def sprinkle(prng, ops: List[Any], p: float) -> List[Any]:
+    """Give each pack step of a history a random presentation with probability p."""
+    return [op + [prng.choice(PRESENTATIONS[1:])] if op[0] == "pack" and len(op) == 3 and prng.random() < p else op for op in ops]
+
+
 # ---------------------------------------------------------------------------- histories
 #
 # Operations (impl side / model side):
-#   ["pack", p, bs]             pack_file(c, <file with bs>, target=p)          SPack
+#   ["pack", p, bs(, pres)]     pack_file(c, <file with bs, presented as pres>, target=p)     SPack
 #   ["set", p, form, bs]        c[p] = value          form V: np.void, A0: 0-d V array, S: bytes
 #   ["write", p, form, bs]      c[p][()] = value  (in place)                     SWrite (class V)
 #   ["del", p] ["copy", s, d] ["move", s, d]
@@ -654,9 +757,7 @@ class _Run:
         from metador_core.packer.utils import pack_file
         k, c = op[0], self.c
         if k == "pack":
-            src = self.d / f"src{idx}.bin"
-            src.write_bytes(op[2])
-            pack_file(c, src, target=op[1])
+            pack_file(c, present(self.d, idx, op[2], pres_of(op)), target=op[1])
         elif k == "set":
             c[op[1]] = _value(op[2], op[3])
         elif k == "write":
@@ -835,14 +936,14 @@ def oracle(case, result) -> Optional[Dict[str, Any]]:
                 return {"step": i, "kind": "marker-odd-exception", "via": k, "what": f"{k} of the marker value raised {err}"}
         if res == "T":
             if k == "pack":
-                labels[op[1]] = (op[2], True, "E" if not op[2] else "V")
+                labels[op[1]] = (op[2], True, "E" if not op[2] else "V", pres_of(op))
             elif k == "set":
-                labels[op[1]] = (op[3], False, "S" if op[2] == "S" else "V")
+                labels[op[1]] = (op[3], False, "S" if op[2] == "S" else "V", None)
             elif k == "write":
                 old = labels.get(op[1])
                 was = prev.get(op[1])
                 if was and len(was[1]) == len(op[3]):
-                    labels[op[1]] = (op[3], False, old[2] if old else "V")
+                    labels[op[1]] = (op[3], False, old[2] if old else "V", None)
                 else:
                     labels.pop(op[1], None)     # h5py pads/truncates to the dataset's size: outside the property
             elif k in ("del", "xwrite", "xcreate"):
@@ -865,20 +966,24 @@ def oracle(case, result) -> Optional[Dict[str, Any]]:
                 for p in [p for p in labels if p.startswith(op[1] + "/")]:
                     labels.pop(p)
         cur = dict(zip(paths, obs))
-        for p, (bs, meta, cls) in labels.items():
+        for p, (bs, meta, cls, pres) in labels.items():
+            src = "" if pres in (None, "plain") else f" (source presented as {pres})"
+            via = None if pres in (None, "plain") else "pack-" + pres.split("-")[0]
             o = cur.get(p)
             if o is None:
                 continue           # not observed (cannot happen: paths cover every label)
             if not o:
-                return {"step": i, "kind": "lost", "what": f"node {p} holding {len(bs)} bytes is gone after {k}"}
+                return {"step": i, "kind": "lost", "what": f"node {p} holding {len(bs)} bytes is gone after {k}{src}"}
             if o[1] != bs or (o[0] == "E") != (len(bs) == 0) or o[0] not in ("E", "V", "S"):
-                return {"step": i, "kind": "bytes", "what": f"node {p} reads back {o[0]}:{_show(o[1])} instead of {_show(bs)} after {k}"}
+                return {"step": i, "kind": "bytes", "via": via, "presentation": pres,
+                        "what": f"node {p} reads back {o[0]}:{_show(o[1])} instead of {_show(bs)} after {k}{src}"}
             if meta:
                 if not o[2]:
-                    return {"step": i, "kind": "meta-missing", "what": f"core.file metadata of {p} is gone after {k}"}
+                    return {"step": i, "kind": "meta-missing", "what": f"core.file metadata of {p} is gone after {k}{src}"}
                 if o[2][0] != len(bs) or o[2][1] != hashlib.sha256(bs).hexdigest():
-                    return {"step": i, "kind": "meta", "what": f"core.file of {p}: contentSize={o[2][0]} sha256={o[2][1][:16]}.. "
-                                                               f"but the bytes have len={len(bs)} sha256={hashlib.sha256(bs).hexdigest()[:16]}.."}
+                    return {"step": i, "kind": "meta", "via": via, "presentation": pres,
+                            "what": f"core.file of {p}: contentSize={o[2][0]} sha256={o[2][1][:16]}.. "
+                                    f"but the bytes have len={len(bs)} sha256={hashlib.sha256(bs).hexdigest()[:16]}..{src}"}
         prev = cur
     return None
 
@@ -978,6 +1083,9 @@ def shrink(case, bad):
     def still(sub):
         b = fails((driver, sub))
         return b is not None and b["kind"] == kind
+    plain = [o[:3] if o[0] == "pack" else o for o in ops]
+    if plain != ops and still(plain):                  # the failure does not depend on how sources were presented
+        ops = plain
     i = bad.get("step", len(ops) - 1)
     packs = [o for o in ops[:i] if o[0] == "pack" and o != ANCHOR]
     for cand in ([ops[i]], ops[max(0, i - 1):i + 1], packs + [ops[i]], packs + ops[max(0, i - 1):i + 1]):
@@ -1035,6 +1143,17 @@ def run(ctx: vlib.Ctx):
             cases += [(drv, h) for drv in drvs]
     for i, h in enumerate(marker_histories()):
         cases += [(drv, PRE + h) for drv in (DRIVERS if not ctx.quick else ["h5", ("ih5", "mf")[i % 2]])]
+    # source presentation: an independent stream derived from ctx.rng after all other draws
+    import random as _random
+    prng = _random.Random(rng.getrandbits(64))
+    memo: Dict[Any, List[Any]] = {}
+    for ci, (drv, h) in enumerate(cases):
+        key = tuple(id(o) for o in h)
+        if key not in memo:
+            memo[key] = sprinkle(prng, h, 0.3)
+        cases[ci] = (drv, memo[key])
+    for i, h in enumerate(presentation_histories(prng, pool, not ctx.quick)):
+        cases += [(drv, PRE + h) for drv in (DRIVERS if not ctx.quick else ["h5", ("ih5", "mf")[i % 2]])]
     first_x = len(cases)          # from here on: oracle only, no model
     xh = exotic_histories()
     for i, h in enumerate(xh[:6] if ctx.quick else xh):   # quick: base container and patch; thorough: merged record too
@@ -1085,7 +1204,8 @@ def run(ctx: vlib.Ctx):
             if key not in reported:
                 reported.add(key)
                 ctx.violation(f"[{small[0]}] {bad2['what']}  (history: {[_op_show(o) for o in small[1]]})",
-                              {"kind": "history", "fail": bad2, **case_to_json(small)}, sig_obj=sig)
+                              {"kind": "history", "fail": bad2, "presentations": [pres_of(o) for o in small[1] if o[0] == "pack"],
+                               **case_to_json(small)}, sig_obj=sig)
         d = compare(case, res, mr, last) if ci < first_x else None
         if d is not None and len(disagreements) < 40:
             disagreements.append({"kind": "history", "driver": case[0], "ops": [_op_show(o) for o in case[1]], **d})
@@ -1109,6 +1229,9 @@ def run(ctx: vlib.Ctx):
         "corpus": len(C), "lengths": lens[:12] + ["..."] + lens[-8:], "large_sizes_oracle_only": large_sizes(not ctx.quick), "histories": len({repr(h) for h in hist}), "drivers": _hist(d for d, _ in cases),
         "cases": len(cases), "ops_per_history": _hist(len(h) for h in hist),
         "op_kinds": _hist(o[0] for h in hist for o in h),
+        "source_presentations": _hist(pres_of(o) for h in hist for o in h if o[0] == "pack"),
+        "source_presentations_accepted": _hist(pres_of(o) for (d, h), r in zip(cases, results) for o, s in zip(h, r["steps"])
+                                               if o[0] == "pack" and s[0] == "T"),
         "marker_attempts": sum(1 for h in hist for o in h if (o[0] == "pack" and o[2] == MARK) or (o[0] in ("set", "write") and o[3] == MARK)),
         "marker_attempts_refused_ih5": sum(1 for (d, h), r in zip(cases, results) if d != "h5" for s in r["steps"] if s[3] is not None and s[0] == "F"),
         "refused_steps_impl": sum(1 for r in results for s in r["steps"] if s[0] == "F"),
@@ -1123,6 +1246,8 @@ def run(ctx: vlib.Ctx):
         "datasets created without metadata (c[p] = value) are moved but not copied individually (MetadorGroup.copy raises on a missing metadata directory)",
         "source and destination of a copy/move differ (h5py treats move(x, x) as a no-op, IH5 refuses it; the node is kept either way)",
         "core.file metadata is the harvested default (no user-supplied metadata object)",
+        "the source path designates an existing regular file, directly or through symbolic links (dangling links, links to directories "
+        "and special files are outside the property); the file is not modified while it is embedded",
     ]
 
     if not xc["ok"]:
@@ -1172,6 +1297,11 @@ def replay(rep) -> int:
     vlib._pool_init()
     if rep.get("kind") == "history":
         case = case_from_json(rep)
+        unknown = sorted({pres_of(o) for o in case[1]} - set(PRESENTATIONS))
+        if unknown:
+            print(f"unknown source presentation(s) {unknown}")
+            return 1
+        print("source presentations:", [pres_of(o) for o in case[1] if o[0] == "pack"])
         res = w_impl(case)
         for op, st in zip(case[1], res["steps"]):
             print(_op_show(op), "->", st[0], st[2], [_obs_show(o) for o in (st[1] or [])], st[3] or "")
